@@ -169,7 +169,7 @@ func VerifC33_data() {
 		// connection level, whatever happens to the stream
 		vrt.Assert(uc == int64(length)-kept, "C33/conn-window-reopened-by-octets-not-kept")
 		vrt.Assert(connAfter == connBefore-int64(length)+uc, "C33/conn-window-bookkeeping")
-		if err == nil && live {
+		if err == nil && live && sc.streams[st.id] == st { // the stream goes on
 			vrt.Assert(us == int64(length)-kept, "C33/stream-window-reopened-by-padding")
 			vrt.Assert(streamAfter == streamBefore-int64(length)+us, "C33/stream-window-bookkeeping")
 			vrt.Assert(kept == int64(d), "C33/accepted-data-reaches-the-body")
